@@ -502,7 +502,7 @@ def run(ctx):
     ctx.log("known-finding witnesses reproduced: %d of %d" % (nk, len(ctx.known_findings())))
     rng = ctx.rng("gen")
     g = GEN.G(rng)
-    nprog = ctx.pick(130, 2500)
+    nprog = ctx.pick(130, 1500)
     nstores = ctx.pick(8, 12)
     seen = set()
     for n in range(nprog):
@@ -524,12 +524,13 @@ def run(ctx):
                 rn.case(psy, p0, text, trans, target, opt, stores, kind, neglit)
         if n < 3:
             ctx.sample({"generator": kind, "fortran": text})
+    ctx.log("implementation/mirror/interpreter part done: %d cases" % rn.stats.get("cases", 0))
     header = ("From Coq Require Import ZArith. From PV Require Import Fort.Syntax C05.Model C05.Corr. "
               "Open Scope Z_scope.")
     # the Coq model is evaluated on the known-finding witnesses and on a deterministic subset of the programs
     # (every case is always compared implementation <-> mirror; coqc parsing of the case files dominates the cost)
     allg = list(rn.coq_groups.values())
-    step, cap = ctx.pick(3, 1), ctx.pick(45, 450)
+    step, cap = ctx.pick(4, 1), ctx.pick(32, 400)
     nk_groups = len(ctx.known_findings())
     groups = allg[:nk_groups] + allg[nk_groups::step][:cap]
     terms = []
